@@ -1,3 +1,4 @@
+import Ntrip.Guards.FramingReads
 import Ntrip.Guards.FramingConsts
 import Ntrip.Properties.C12
 import Ntrip.Generated.Consts
@@ -20,5 +21,8 @@ theorem tie_guards_framing : type_of% Ntrip.Guards.framing := Ntrip.Guards.frami
 
 /-- Tie T1 (constants): the literals of the framing model are the constants of the source. -/
 theorem tie_framing_consts : type_of% Ntrip.Guards.framing_consts := Ntrip.Guards.framing_consts
+
+/-- Tie T1: the bit fields the framing code reads, their widths and signedness. -/
+theorem tie_framing_reads : type_of% Ntrip.Guards.framing_reads := Ntrip.Guards.framing_reads
 
 end Ntrip.C12
